@@ -28,6 +28,12 @@ def _shape(rng, kind, p, fi, T=None, p0=2):
             w[-1] = 0.3
     elif kind == "intercept_only":
         w[-1] = 1.5
+    elif kind == "task_sparse":
+        # a legitimate user start whose rows are not jointly sparse: zero for the first task, non-zero for the others
+        idx = rng.choice(p, 4, replace=False)
+        w[idx] = rng.standard_normal((4,) + shp[1:]) * 0.8
+        if T is not None:
+            w[idx[:3], 0] = 0.0
     return w
 
 
@@ -183,7 +189,10 @@ def _execute(h, entry, fi, X, Xs, y, grid, rng, tol, skl, n, p):
             pen = skl.penalty({"kind": "L2_1", "alpha": g[0]})
             df = skl.datafit({"kind": "QuadraticMultiTask"})
             Winit = None if init is None else np.ascontiguousarray(init.T)
-            return skl.solver("MultiTaskBCD", fit_intercept=fi, tol=tol, p0=2).path(Xs, y, df, pen, g, Winit), g
+            # (without extrapolation for the task-sparse start: an accepted extrapolation rebuilds XW from scratch and
+            #  would hide a model fit that does not belong to W_init)
+            return skl.solver("MultiTaskBCD", fit_intercept=fi, tol=tol, p0=2,
+                              use_acc=op["init"] != "task_sparse").path(Xs, y, df, pen, g, Winit), g
         elif entry == "MultiTaskLasso.path":
             Winit = None if init is None else np.ascontiguousarray(init.T)
             return skglm.MultiTaskLasso(alpha=g[0], fit_intercept=fi, tol=tol, p0=2).path(Xs, y, g, coef_init=Winit), g
@@ -269,6 +278,9 @@ SENTINEL_HISTORIES = [
     _hh("Lasso.path", True, dict(op="path", order="shuffled", init="zero", n=4)),
     _hh("WeightedLasso.path", False, dict(op="path", order="dec", init="random", n=3)),
     _hh("MultiTaskBCD.path", True, dict(op="path", order="dec", init="none", n=3)),
+    _hh("MultiTaskBCD.path", False, dict(op="path", order="dec", init="task_sparse", n=3)),
+    _hh("MultiTaskBCD.path", False, dict(op="path", order="shuffled", init="task_sparse", n=4)),
+    _hh("MultiTaskLasso.path", False, dict(op="path", order="dec", init="task_sparse", n=3)),
     _hh("MultiTaskLasso.path", True, dict(op="path", order="dec", init="none", n=5)),
     _hh("MultiTaskLasso.path", False, dict(op="path", order="shuffled", init="random", n=4)),
     _hh("MultiTaskLasso.refit", True, _fit("same"), _fit("alpha_to_null"), _fit("alpha_down")),
